@@ -59,6 +59,7 @@ def pSch (p : P) : Option (Sch × P) :=
   match name with
   | "v" => some (.v, r)
   | "s" => some (.s, r)
+  | "p" => some (.p, r)
   | "e" => do
     let r ← expect ':' r
     let (c, r) ← pInt r
@@ -90,6 +91,17 @@ partial def pTerm (p : P) : Option (Term × P) := do
     | "un" => (pTerm r).map (fun (t, r) => (Term.un t, r))
     | "sp" => (pTerm r).map (fun (t, r) => (Term.sp t, r))
     | "es" => (pTerm r).map (fun (t, r) => (Term.es t, r))
+    | "rs" => (pTerm r).map (fun (t, r) => (Term.rs t, r))
+    | "dos" => (pTerm r).map (fun (t, r) => (Term.dos t, r))
+    | "sd" => (pSch r).map (fun (sc, r) => (Term.sd sc, r))
+    | "bulk" => do
+      let (n, r) ← pNat r
+      if n > 4 then none
+      let r ← expect ',' r
+      let (f, r) ← pFn r
+      let r ← expect ',' r
+      let (t, r) ← pTerm r
+      pure (Term.bulk n f t, r)
     | "co" => do
       let (sc, r) ← pSch r
       let r ← expect ',' r
